@@ -11,6 +11,16 @@ CHECKS = {
  },
 }
 CHECKS.update({
+ 'C05': {
+  'text': 'Partial proof of the source map: add/add_empty keep the invariant "every registered BASIC line points at an existing file line"; every position map_location_to_source returns is one of the token ranges registered for exactly the file line the line-number map names; tokenization-error ranges satisfy start <= end <= line length and map to the diagnostic\'s own file line; no index can go out of bounds under the stated preconditions. SourceFileAnalyzer::run itself is outside both verifiers.',
+  'note': 'Trusted: vstd HashMap/Vec specs, Range::clone is structural, derived Default of SourceLineRanges. The preconditions of map_to_source (file_line < number of lines; error index within the line) are obligations of run(), which is not verified.',
+  'technique': 'Verus contracts on SourceFileMap / TokenizationError::string_range (verbatim extraction)',
+ },
+ 'C12': {
+  'text': 'Partial proof: LineCruncher::next - the byte iterator every matcher reads through - is verified against a full functional contract (returns the first non-blank byte at or after the cursor, skips exactly TAB/FF/CR/SPACE, never changes the line, cursor monotone and in bounds), and a lemma shows the crunched byte sequence is invariant under inserting a blank anywhere. The keyword/operator matchers are in the Kani unit tokenizer_matchers when built (bounded).',
+  'note': 'Trusted: std definition of u8::is_ascii_whitespace. Identifier/numeral/DATA scanning and Tokenizer::next are undecided.',
+  'technique': 'Verus functional contract + inductive lemma on LineCruncher',
+ },
  'C02': {
   'text': 'Partial. Proved over the full domain (loop-free harnesses over all pairs of doubles / all operand kinds, on the real functions): the kind and error rule of all 13 binary and 3 unary operators (number op number => number; any string operand of + - * / ^ or unary minus => TYPE MISMATCH; mixed comparison => TYPE MISMATCH; / by +0 or -0 => DIVISION BY ZERO; AND/OR/NOT total), bit-exact values of + - unary+- and of the six numeric comparisons (1/0), truthiness (non-zero incl. NaN, non-empty) and 1/0 encoding of AND/OR/NOT, and the token->operator tables. Bounded stand-ins (never counted as proved): string comparisons for lengths <= 2, * and / values on small integers. Precedence/associativity, ABS/INT and PRINT formatting are not decided by this family here.',
   'note': 'Trusted: CBMC IEEE-754 model; CBMC NaN-on-arithmetic sanity checks are ignored (NaN is a legal BASIC value); Backtrace::capture stubbed (diagnostics only); powf stubbed to an arbitrary double for the kind rule.',
